@@ -54,7 +54,7 @@ RECOVERIES = ["r", "a", "stale_r", "stale_a", "coll_r", "coll_w", "stale_coll_w"
 
 def budget(tier):
     if tier == "quick":
-        return {"runs": 320, "chunk": 5, "wall_cap": 240.0, "det_sample": 6}
+        return {"runs": 960, "chunk": 6, "wall_cap": 240.0, "det_sample": 6}
     return {"runs": 12000, "chunk": 20, "wall_cap": 3000.0, "det_sample": 40}
 
 
